@@ -24,25 +24,28 @@ VARIABLES tid,     \* index of the trace being replayed
           fails,   \* set of <<clause, event index>> of failed property clauses (first occurrence per clause)
           wits,    \* set of witness tags seen
           drift,   \* set of <<event index, kind, detail-set>>
+          taint,   \* set of <<finding id, first event index>> whose trigger fired
           obs,     \* observer state maintained from the log only (cycle-router decision counters)
           out      \* verdicts of the finished traces
-vars == <<tid, l, S, fails, wits, drift, obs, out>>
+vars == <<tid, l, S, fails, wits, drift, taint, obs, out>>
 
 Tr == Traces[tid]
 
 \* spec-internal fields added to a logged state
-FromLog(st, cfg, rt) ==
+FromLog(st, cfg, ob) ==
     [now |-> st.now, created |-> st.created, accepted |-> st.accepted, completed |-> st.completed,
      nexit |-> st.nexit, arr |-> st.arr, and |-> st.and, ann |-> st.ann, anc |-> st.anc,
      nodes |-> st.nodes, cu |-> st.cu, exit |-> st.exit, steps |-> st.steps, recs |-> st.recs,
-     ev |-> st.ev, unchecked |-> st.unchecked,
-     rt |-> rt, cfg |-> cfg, mode |-> "trace", script |-> <<>>, err |-> ""]
+     ev |-> st.ev, unchecked |-> st.unchecked, trk |-> st.trk,
+     trkprev |-> <<st.trk.a, st.trk.b, st.trk.m>>, gb |-> ob.gb,
+     rt |-> ob.rt, cfg |-> cfg, mode |-> "trace", script |-> <<>>, err |-> ""]
 
 Rt0(cfg) == [k \in 1..cfg.K |-> [n \in 1..cfg.N |-> 0]]
+Obs0(cfg) == [rt |-> Rt0(cfg), gb |-> <<>>]
 
 \* fields compared between spec successor and log
 CmpFields == {"now", "created", "accepted", "completed", "nexit", "arr", "and", "ann", "anc",
-              "exit", "recs", "ev", "unchecked", "steps"}
+              "exit", "recs", "ev", "unchecked", "steps", "trk"}
 NodeFields == {"c", "cap", "q", "count", "insvc", "srv", "hid", "bq", "lbq", "intr", "nintr",
                "ned", "net", "nei", "shd", "shc", "shi", "ot", "nccd", "ncci", "psocc"}
 
@@ -58,11 +61,12 @@ DiffOf(T, post) ==
 TraceInit ==
     /\ tid = 1
     /\ l = 0
-    /\ S = FromLog(Traces[1].init, Traces[1].cfg, Rt0(Traces[1].cfg))
+    /\ S = FromLog(Traces[1].init, Traces[1].cfg, Obs0(Traces[1].cfg))
     /\ fails = {}
     /\ wits = {}
     /\ drift = {}
-    /\ obs = Rt0(Traces[1].cfg)
+    /\ taint = {}
+    /\ obs = Obs0(Traces[1].cfg)
     /\ out = <<>>
 
 LoggedState(j) == IF j = 0 THEN Tr.init ELSE Tr.events[j]
@@ -73,7 +77,7 @@ AddFails(old, new, j) ==
 Verdict ==
     [tid |-> Tr.tid, n |-> l, outcome |-> Tr.outcome,
      fails |-> AddFails(fails, F_C14_final(Tr.cfg, LoggedState(l), Tr.outcome), l),
-     wits |-> wits, drift |-> drift]
+     wits |-> wits, drift |-> drift, taint |-> taint]
 
 \* initial state of a trace: invariants judged on it, and compared with the spec's Init
 InitCheck ==
@@ -81,7 +85,7 @@ InitCheck ==
         st == Tr.init
         succ == InitStates(cfg, "trace", st.steps)
         match == {T \in succ : DiffOf(T, st) = {}}
-    IN [f |-> InvFails(cfg, st),
+    IN [f |-> InvFails(cfg, st, Obs0(cfg)),
         d |-> IF match # {} THEN {}
               ELSE IF succ = {} THEN {<<0, "no-successor", {"init"}>>}
               ELSE {<<0, "diff", DiffOf(CHOOSE T \in succ : TRUE, st)>>}]
@@ -97,21 +101,22 @@ StepEvent ==
            enabled == a \in ArgMin(Sx) /\ EvLabel(Sx, a).kind = e.ev.kind
            succ == IF enabled THEN ExecEvent(Sx, a) ELSE {}
            match == {T \in succ : DiffOf(T, e) = {}}
+           obs2 == ObsAfter(cfg, e, obs)
            i0 == IF l = 0 THEN InitCheck ELSE [f |-> {}, d |-> {}]
-           newfails == StepFails(cfg, pre, e, obs) \cup InvFails(cfg, e)
+           newfails == StepFails(cfg, pre, e, obs) \cup InvFails(cfg, e, obs2)
            dr == IF ~enabled THEN {<<l + 1, "not-enabled", {e.ev.kind}>>}
                  ELSE IF succ = {} THEN {<<l + 1, "no-successor", {e.ev.kind}>>}
                  ELSE IF match # {} THEN {}
                  ELSE LET T == CHOOSE T \in succ : TRUE
                       IN IF ~Ok(T) THEN {<<l + 1, "spec-crash", {T.err}>>}
                          ELSE {<<l + 1, "diff", DiffOf(T, e)>>}
-           rt2 == IF match # {} THEN (CHOOSE T \in match : TRUE).rt
-                  ELSE IF succ # {} THEN (CHOOSE T \in succ : TRUE).rt ELSE S.rt
+
        IN /\ fails' = AddFails(AddFails(fails, i0.f, 0), newfails, l + 1)
           /\ wits' = wits \cup Witnesses(cfg, pre, e)
+          /\ taint' = AddFails(taint, Triggers(cfg, pre, e), l + 1)
           /\ drift' = IF Cardinality(drift) < 3 THEN drift \cup i0.d \cup dr ELSE drift
-          /\ S' = FromLog(e, cfg, rt2)
-          /\ obs' = RtAfter(cfg, e, obs)
+          /\ S' = FromLog(e, cfg, obs2)
+          /\ obs' = obs2
     /\ l' = l + 1
     /\ UNCHANGED <<tid, out>>
 
@@ -124,9 +129,10 @@ NextTrace ==
     /\ fails' = {}
     /\ wits' = {}
     /\ drift' = {}
+    /\ taint' = {}
     /\ IF tid < NT
-       THEN /\ S' = FromLog(Traces[tid + 1].init, Traces[tid + 1].cfg, Rt0(Traces[tid + 1].cfg))
-            /\ obs' = Rt0(Traces[tid + 1].cfg)
+       THEN /\ S' = FromLog(Traces[tid + 1].init, Traces[tid + 1].cfg, Obs0(Traces[tid + 1].cfg))
+            /\ obs' = Obs0(Traces[tid + 1].cfg)
        ELSE S' = S /\ obs' = obs /\ ndJsonSerialize(IOEnv.OUT_FILE, out')
 
 TraceNext == StepEvent \/ NextTrace
